@@ -113,6 +113,11 @@ def _receiver_root(e, depth=0):
     if e.k == "call":
         if not e.a:
             return set()
+        rty = e.x.get("ty", "")
+        if rty and "?" not in rty and "&" not in rty and "*" not in rty:
+            # the call hands out an owned value (BinaryHeap::pop, Vec::remove, mem::take ..): what is
+            # borrowed from it is borrowed from a local of this function, not from the receiver
+            return {"owned:" + e.x["path"].rsplit("::", 1)[-1]}
         return _receiver_root(e.a[0], depth + 1)
     if e.k == "phi":
         out = set()
